@@ -4,7 +4,7 @@
    MIR_scan_string), coq/C10/FloatFmt.v (libc printf/strtod oracles). *)
 From Coq Require Import List ZArith NArith.
 From MirV Require Import Base.W64 C11.Ast C11.BinIO C11.BinIOProofs C10.TextOut C10.TextScan C10.TextProofs C10.LexProofs
-  C10.TextTokens C10.ParseProofs C10.PrintNormProofs C10.LexAllProofs C10.TextFixpoint C10.FloatFmt C10.TextExamples C11.TempNames.
+  C10.TextTokens C10.ParseProofs C10.PrintNormProofs C10.LexAllProofs C10.TextFixpoint C10.FloatFmt C10.TextExamples C10.TextWfDec C11.TempNames.
 Import ListNotations.
 Local Open Scope Z_scope.
 
@@ -115,6 +115,27 @@ Theorem text_relabel_nonvacuous :
   /\ relabel_ctx tex_ctx2 = Some tex_ctx2r /\ tex_ctx2r <> tex_ctx2 /\ relabel_ctx tex_ctx2r = Some tex_ctx2r.
 Proof. exact (conj tex2_chars_ok (conj tex2_tokens_ok tex2_relabel)). Qed.
 Print Assumptions text_relabel_nonvacuous.
+
+(* The whole statement with its hypotheses as ONE computable check [wf_text_b] (sound: cctx_ok_b_spec,
+   tmodules_ok_b_spec, text_stable_b_spec in TextWfDec.v; the libc law on a float immediate is decided by
+   printing it with the printf model, checking the shape of the lexeme and parsing it back), for any
+   numbering of the labels: the scan yields the modules renamed the way MIR_scan_string renames labels,
+   up to tnorm, and that normal form prints exactly the text of the renamed modules (the renaming
+   preserves text_stable: relabel_ctx_stable).  The driver evaluates wf_text_b and relabel_ctx on every
+   generated context (evidence: theorem_hypotheses). *)
+Theorem text_roundtrip_checked : forall pF pD pLD fF fD fLD ms ms',
+  wf_text_b pF pD pLD fF fD fLD ms = true -> relabel_ctx ms = Some ms' ->
+  scan_ctx pF pD pLD (p_ctx fF fD fLD ms) = Ok (map tnorm_module ms')
+  /\ p_ctx fF fD fLD (map tnorm_module ms') = p_ctx fF fD fLD ms'.
+Proof. exact text_roundtrip_checked_lemma. Qed.
+Print Assumptions text_roundtrip_checked.
+
+(* ... and with labels already numbered the scanner's way the check implies wf_text, the hypothesis of
+   text_module_fixpoint *)
+Theorem text_wf_checked : forall pF pD pLD fF fD fLD ms,
+  wf_text_b pF pD pLD fF fD fLD ms = true -> relabel_ctx ms = Some ms -> wf_text pF pD pLD fF fD fLD ms.
+Proof. exact wf_text_b_spec. Qed.
+Print Assumptions text_wf_checked.
 
 (* the writer model terminates with an output on every context (it is a structurally recursive
    function over items, insns and operands: no fuel, no partiality) *)
